@@ -97,6 +97,7 @@ impl<R: Read + Seek> ReadBox<&mut R> for StblBox {
                     "stbl box contains a box with a larger size than it",
                 ));
             }
+            check_child_size(s)?;
 
             match name {
                 BoxType::StsdBox => {
